@@ -44,9 +44,9 @@ def scan_forbidden():
     return bad
 
 
-EXTRA_MODULES = {"C01": ["H1", "Ctl", "ExportGen"], "C02": ["H1", "Ctl"], "C04": ["C04c", "Ctl"], "C05": ["Ctl"], "C06": ["C06Refine", "C06c", "H1", "Ctl"], "C07": ["C07b", "H1", "Ctl"],
-                 "C09": ["Ctl", "ExportGen"], "C10": ["Ctl", "ExportGen"], "C11": ["Ctl"], "C12": ["H1", "Ctl"], "C14": ["C14b", "H1", "Ctl"], "C15": ["C15b", "Ctl"],
-                 "C16": ["C16b", "H1"], "C17": ["C17b", "Ctl"]}
+EXTRA_MODULES = {"C01": ["C01c", "H1", "Ctl", "ExportGen"], "C02": ["H1", "Ctl"], "C04": ["C04c", "Ctl"], "C05": ["Ctl"], "C06": ["C06Refine", "C06c", "H1", "Ctl"], "C07": ["C07b", "C07c", "H1", "Ctl"],
+                 "C08": ["C08b"], "C09": ["Ctl", "ExportGen"], "C10": ["Ctl", "ExportGen"], "C11": ["Ctl"], "C12": ["H1", "Ctl"], "C13": ["C13b"], "C14": ["C14b", "H1", "Ctl"], "C15": ["C15b", "Ctl"],
+                 "C16": ["C16b", "C16c", "H1"], "C17": ["C17b", "Ctl"]}
 SHARED_MODULES = {"H1", "Ctl", "ExportGen"}                     # modules holding theorems of several properties: only the `Cnn_…` ones count for Cnn     # further theorem files that belong to a property
 
 
@@ -265,6 +265,36 @@ def main():
             notes.append("dev-profile run: %d cases, %d oracle failures" % (st_d["evaluations"], len(st_d["oracle_fail_unlisted"])))
         else:
             notes.append("dev-profile harness build failed")
+    # ---- thorough tier: time-boxed deepening — further rounds of the same families under derived seeds until the budget is used
+    if tier == "thorough" and not args.replay and not stats["oracle_fail_unlisted"] and not stats["disagree"]:
+        budget = float(os.environ.get("VERIF_THOROUGH_BUDGET", "600"))
+        rnd = 0
+        while time.time() - t0 < budget and rnd < 40:
+            rnd += 1
+            rng_r = random.Random(seed * 1000003 + rnd)
+            fam_r = cfg["families"](rng_r, "thorough")
+            scens_r = fam_r + gen.sweep_scenarios(rng_r, fam_r, per=1, cap=4000) + gen.api_noise_scenarios(rng_r, fam_r, cap=1200)
+            ops_r, verdicts_r, crashes_r = run_pipeline(binp, scens_r, workdir, "deep", mutate_per=cfg.get("mutate_per", {}).get(tier, 0), rng=rng_r, nouf_bin=nouf_bin)
+            st_r = analyse(pid, cfg, ops_r, verdicts_r, known)
+            crashes = crashes + crashes_r
+            stats["evaluations"] += st_r["evaluations"]
+            stats["oracle_true"] += st_r["oracle_true"]
+            stats["covered"] += st_r["covered"]
+            stats["outside_classes"] += st_r["outside_classes"]
+            stats["digests"] |= st_r["digests"]
+            for key_ in ("kinds", "tags", "impl_outcomes", "diffparts", "known_seen"):
+                for k_, v_ in st_r[key_].items():
+                    stats[key_][k_] = stats[key_].get(k_, 0) + v_
+            for line, v in st_r["oracle_fail_unlisted"][:2]:
+                p = write_replay(workdir, "%s-deep%d-oracle-%d.json" % (pid, rnd, line), {"property": pid, "what": "property predicate false on the real crate's output (thorough tier, deepening round %d, seed %d)" % (rnd, seed * 1000003 + rnd), "verdict": strip(v), "ops": scenario_of(ops_r, line)})
+                violations.append((p, ""))
+            if not st_r["oracle_fail_unlisted"] and st_r["disagree"]:
+                line, v = st_r["disagree"][0]
+                p = write_replay(workdir, "%s-deep%d-correspondence-%d.json" % (pid, rnd, line), {"property": pid, "what": "model/implementation correspondence no longer checks on view %s (thorough tier, deepening round %d)" % (cfg["view"], rnd), "differs": v.get("diff"), "verdict": strip(v), "ops": scenario_of(ops_r, line)})
+                violations.append((p, "no-failing-input-found"))
+            if violations:
+                break
+        notes.append("thorough tier: %d deepening rounds under derived seeds within a budget of %.0f s" % (rnd, budget))
     # ---- verdict
     for n_v, (line, v) in enumerate(stats["oracle_fail_unlisted"][:3]):
         sc = scenario_of(ops, line)
